@@ -63,6 +63,8 @@ def gen_sequence(rng, key, length):
         ops.append(op)
         saved = saved or op == "save"
         fits += op == "fit"
+    if key == "logistic-src" and "sim" not in ops:
+        ops.append("sim")
     return ops
 
 
@@ -188,7 +190,8 @@ class Harness:
             tps = {i: [rng.uniform(60, 90) for _ in range(rng.randrange(1, 4))] for i in ids}
             return dict(ips=ips, tps=tps)
         if op == "sim":
-            table = rng.random() < 0.5
+            self.sim_count = getattr(self, "sim_count", 0) + 1
+            table = self.sim_count % 2 == 1          # first a caller-owned table, then a random design, alternately
             k = ("simulate", seed, table)
             if k not in self.settings_cache:
                 vp = {"patient_number": 3, "visit_type": "random", "first_visit_mean": 0.0, "first_visit_std": 0.4,
